@@ -45,7 +45,11 @@ def run(ctx):
             det = fmt(sk)
             okk = sk == ("param", fs.path, 1) or (is_call(sk) and sk[2] and values.strip_payload(sk[2][0]) == ("param", fs.path, 1))
     ctx.check("purity", "from_seed/key-from-seed-only", okk, "signing_key = SigningKey::from(SecretKey::try_from(seed))", "signing key is %s" % det, ctx.loc(fs))
-    ctx.check("purity", "MsgSigner/constructed-only-in-from_seed", {c[0].path for c in cs} == {fs.path}, "MsgSigner is only constructed by from_seed",
+    # (a MsgSigner built anywhere else - `new`, with a random key - must not be what the long-term identity gets: nothing reachable from
+    #  LongTermKey::new constructs one except from_seed)
+    ltk_reach, _e, _p = P.reach([LTK + "::new"])
+    ctx.check("purity", "MsgSigner/constructed-only-in-from_seed", fs.path in {c[0].path for c in cs} and {c[0].path for c in cs if c[0].path in ltk_reach} == {fs.path}
+              and {c[0].path for c in cs} <= {fs.path, SIGNER + "::new"}, "the long-term MsgSigner is only constructed by from_seed",
               "MsgSigner is also constructed in %s" % sorted({c[0].path for c in cs} - {fs.path}))
     ln = ctx.fn(LTK + "::new")
     lcs = W.ctor_fields(LTK)
@@ -154,6 +158,10 @@ def run(ctx):
         if disp:
             reach_d, ext_d, _ = P.reach(disp)
             okpk = any(x.endswith("MsgSigner::public_key_bytes") or x.endswith("LongTermKey::public_key") for x in reach_d)
+            if not okpk:
+                # ... or reads the verifying key of the signer directly (and nothing of the private half)
+                extn = {strip_generics(x) for x in ext_d}
+                okpk = any(x.endswith("SigningKey::verifying_key") for x in extn) and not any(x.endswith(("SigningKey::to_bytes", "SigningKey::as_bytes", "SigningKey::to_keypair_bytes", "SigningKey::to_scalar_bytes", "SigningKey::to_scalar")) for x in extn)
     ctx.check("one-identity", "announced-key-is-the-signing-key", okpk, "the announced public key is ltk.public_key()", "announced key is %s" % fmt(pk), ctx.loc(cs[0][0]) if cs else None)
 
     # ------------------------------------------------------------------ (4) certificate contents
